@@ -136,6 +136,24 @@ func genC14(t *rapid.T) *C14Case {
 			sc.Body.Stmts = append(sc.Body.Stmts, sCmd(&Cmd{Name: fmt.Sprintf("c%d", i), Args: []*Arg{{Toks: []string{"OBJ"}}, {IsMv: true, Moves: g.steps(8, true)}}}))
 		}
 	}
+	// constants used as mart items (documented substitution site): the terminator rule applies to the value
+	if rapid.IntRange(0, 2).Draw(t, "martconst") == 0 {
+		val := rapid.SampledFrom([]string{"ITEM_NONE", "ITEM_POTION", "ITEM_NONE"}).Draw(t, "martconstval")
+		used := false
+		for _, tp := range c.File.Tops {
+			if tp.K == "mart" {
+				for _, it := range tp.Mart.Items {
+					if it.PS == nil && rapid.IntRange(0, 2).Draw(t, "useconst") == 0 {
+						it.Name = "ITEM_CONST"
+						used = true
+					}
+				}
+			}
+		}
+		if used {
+			c.File.Tops = append([]*Top{{K: "const", Const: &Const{Name: "ITEM_CONST", Val: []string{val}}}}, c.File.Tops...)
+		}
+	}
 	if len(sc.Body.Stmts) > 0 {
 		pos := rapid.IntRange(0, len(c.File.Tops)).Draw(t, "scriptpos")
 		c.File.Tops = append(c.File.Tops[:pos], append([]*Top{{K: "script", Script: sc}}, c.File.Tops[pos:]...)...)
@@ -189,7 +207,7 @@ func checkC14(c *C14Case) *Violation {
 		st.Eval(src, false, nil, "bad-multiplier-rejected")
 		return nil
 	}
-	resolved, ok := Resolve(c.File, c.Switches)
+	resolved, ok := Resolve(ExpandConsts(c.File), c.Switches)
 	if !ok {
 		if res.Err == nil {
 			return viol("missing-case-accepted", "a list poryswitch has no matching case and no '_', but the program was accepted\n--- source\n%s", src)
